@@ -37,8 +37,15 @@ func genRange(t *rapid.T) m.Range {
 	return m.Range{L1: genMagnitude(t, "l1"), C1: genMagnitude(t, "c1"), L2: genMagnitude(t, "l2"), C2: genMagnitude(t, "c2")}
 }
 
+// locations are strings the validator has to hand back exactly as the data states them: plain file IRIs, and
+// strings with blanks, characters outside ASCII, percent signs, braces, fragments, Windows and relative paths
+var c14Locations = []string{"file:///root.raml", "file://./api/root.yaml", "http://ex.org/api.json",
+	"file:///home/dev/api specs/orders api.raml", "libs/Monitoring {v2}.raml", "file:///données/api-é.raml", "file:///仕様/api.raml",
+	"file:///a/already%20encoded.raml", "file:///a/100%.raml", "C:\\work\\api\\root.raml", "file:///a/b.raml#/types/T", "http://ex.org/api.json?rev=2&x=(1)",
+	"FILE:///Upper/Case.RAML", "file:///a//b/../c.raml", "root.raml", "file:///quote\"and'tick`.raml", "file:///tab\there.raml", " file:///leading-space.raml"}
+
 func genSourceMaps(t *rapid.T, g *m.Graph) *m.SourceMaps {
-	s := &m.SourceMaps{Root: pick(t, []string{"file:///root.raml", "file://./api/root.yaml", "http://ex.org/api.json"}, "root"), Entries: map[int][]m.LexEntry{}}
+	s := &m.SourceMaps{Root: pick(t, c14Locations, "root"), Entries: map[int][]m.LexEntry{}}
 	propIRIs := []string{m.NS + "p0", m.NS + "e0", "http://a.ml/vocabularies/core#name"}
 	for i := range g.Nodes {
 		kind := rapid.IntRange(0, 4).Draw(t, "lexKind") // 0 none, 1 property-level only, 2.. node-level (+ property-level around it)
@@ -89,6 +96,9 @@ func genSourceMaps(t *rapid.T, g *m.Graph) *m.SourceMaps {
 	assigned := map[int]bool{}
 	for f := 0; f < nf; f++ {
 		fl := m.FileLoc{Location: fmt.Sprintf("file:///lib%d.raml", f)}
+		if rapid.Bool().Draw(t, "oddLocation") {
+			fl.Location = fmt.Sprintf("%s-%d", pick(t, c14Locations, "location"), f)
+		}
 		for i := range g.Nodes {
 			if !assigned[i] && rapid.IntRange(0, 3).Draw(t, "inFile") == 0 {
 				assigned[i] = true
